@@ -1294,7 +1294,11 @@ class DistLogNormal(DistNormal):
         Draw a value from the LogNormal distribution with mean mu and standard
         deviation sigma for the underlying Normal distribution.
         """
-        return math.exp(super().draw())
+        try:
+            return math.exp(super().draw())
+        except OverflowError:
+            # the value is beyond the largest float (very large sigma or mu)
+            return math.inf
 
     def probability_density(self, x: float) -> float:
         """Returns the probability density value for value x."""
